@@ -420,8 +420,13 @@ def r5_decorators(a, tier):
     for n in walk_no_defs(new.node):
         if isinstance(n, ast.Call) and dotted(n.func) == 'RuleInfo':
             for k in n.keywords:
-                if isinstance(k.value, ast.Call) and dotted(k.value.func) == 'getattr' and len(k.value.args) >= 2 and isinstance(k.value.args[1], ast.Constant):
-                    read[k.arg] = k.value.args[1].value
+                kv = through_locals(new, k.value)  # also `no_memo = getattr(func, 'no_memo', False)` ... `no_memo=no_memo`
+                cands = [kv]
+                if isinstance(k.value, ast.Name):  # a local assigned more than once (a default first, then the attribute of the function)
+                    cands += [x.value for x in walk_no_defs(new.node) if isinstance(x, ast.Assign) and any(isinstance(t, ast.Name) and t.id == k.value.id for t in x.targets)]
+                for kv in cands:
+                    if isinstance(kv, ast.Call) and dotted(kv.func) == 'getattr' and len(kv.args) >= 2 and isinstance(kv.args[1], ast.Constant):
+                        read[k.arg] = kv.args[1].value
     dec_mod = a.p.module('tatsu.contexts.decorator.basic')
     for dname, fld in (('nomemo', 'no_memo'), ('nostak', 'no_stak'), ('name', 'is_name'), ('isname', 'is_name'), ('token', 'is_tokn'), ('leftrec', 'is_lrec')):
         df = dec_mod.functions.get(dname)
